@@ -7,7 +7,6 @@ CONSTANTS
   None <- NoneV
   Family = "three"
 INVARIANT PropertyHolds
-INVARIANT PropertyOrKnown
 INVARIANT OrderFree
 CONSTRAINT EmitCase
 CHECK_DEADLOCK FALSE
